@@ -71,8 +71,33 @@ fn handle(line: &str) -> String {
     }
 }
 
+/// A `log` backend at the most verbose level that evaluates every record (formats its arguments into a sink that
+/// keeps nothing): code under test that misbehaves only when logging is switched on — a log argument that panics
+/// or has a side effect — then misbehaves here as well. Nothing is printed.
+struct EvalLogger;
+struct NullSink;
+impl std::fmt::Write for NullSink {
+    fn write_str(&mut self, _s: &str) -> std::fmt::Result {
+        Ok(())
+    }
+}
+impl log::Log for EvalLogger {
+    fn enabled(&self, _m: &log::Metadata) -> bool {
+        true
+    }
+    fn log(&self, record: &log::Record) {
+        let _ = std::fmt::write(&mut NullSink, *record.args());
+    }
+    fn flush(&self) {}
+}
+static LOGGER: EvalLogger = EvalLogger;
+
 fn main() {
     std::panic::set_hook(Box::new(|_| {}));
+    if std::env::var("HARNESS_NO_LOGGER").is_err() {
+        let _ = log::set_logger(&LOGGER);
+        log::set_max_level(log::LevelFilter::Trace);
+    }
     let stdin = std::io::stdin();
     // The code under test prints progress with println! (WriteFile); keep the protocol channel clean:
     // answers go to a duplicate of the original stdout, fd 1 itself is pointed at /dev/null.
